@@ -112,7 +112,7 @@ class PyM:
             "timers": {"en": int(bool(sch.enabled)), "pm": int(sch.mti_period), "ps": int(sch.sti_period),
                        "nm": int(sch.next_mti) if sch.mti_period else 0, "ns": int(sch.next_sti) if sch.sti_period else 0},
             "irq": {"pend": int(bool(e._irq_pending)), "inint": int(bool(e._in_interrupt)), "src": e._irq_source.name if e._irq_source else "",
-                    "stack": len(e._interrupt_stack), "tot": int(e.irq_counts.get("total", 0))},
+                    "stack": len(e._interrupt_stack), "tot": int(e.irq_counts.get("total", 0)), "latched": int(bool(getattr(e, "_key_irq_latched", False)))},
             "cnt": {"cyc": int(e.cycle_count), "instr": int(e.instruction_count)},
         }
 
@@ -204,6 +204,17 @@ def scripts_for(tier: str, seed: int) -> List[List[Dict[str, Any]]]:
             s.insert(rel, {"ev": "Key", "press": False, "code": code, "name": None})
             for _ in range(rnd.randint(0, 3)):
                 s.insert(rnd.randrange(k + 2, len(s) + 1), {"ev": "Step", "ins": {"k": "READKIL"}})
+        out.append(s)
+    # keys held on strobed columns while a long interrupt handler runs (nothing reads KIL in there): press and auto-repeat events
+    # pile up until the 8-slot event ring wraps - snapshot points with a non-zero ring head
+    for i in range(2 if tier == "quick" else 12):
+        codes = rnd.sample([0x01, 0x03, 0x09, 0x0A, 0x11], 2)
+        s = [{"ev": "Step", "ins": {"k": "STROBE", "v": 0xFF}}]
+        s += [{"ev": "Key", "press": True, "code": c, "name": None} for c in codes]
+        s += [{"ev": "Step", "ins": {"k": "SETIMR", "v": 0x81}}, {"ev": "Timer", "s": 0}]
+        s += [{"ev": "Step", "ins": {"k": rnd.choice(["NOP", "NOP", "ALU"])}} for _ in range(rnd.choice([84, 96]))]
+        s += [{"ev": "Key", "press": False, "code": codes[0], "name": None}]
+        s += [{"ev": "Step", "ins": {"k": "NOP"}} for _ in range(8)]
         out.append(s)
     return out
 
